@@ -866,19 +866,80 @@ func (e *Engine) IsZeroBuffer(t *Term) bool {
 	if !ok || mk.Referrers() == nil {
 		return false
 	}
-	for _, ref := range *mk.Referrers() {
-		switch x := ref.(type) {
-		case *ssa.DebugRef:
-		case *ssa.Call:
-			if isBuiltin(x, "append") && len(x.Call.Args) == 2 && x.Call.Args[1] == ssa.Value(mk) && x.Call.Args[0] != ssa.Value(mk) {
-				continue
-			}
-			return false
-		default:
+	// no collected write (store, copy, decoder, environment call) targets it
+	e.buildWrites()
+	ts := t.String()
+	for _, w := range e.allWrites {
+		if w.Base == ts {
 			return false
 		}
 	}
-	return true
+	// and every use of the value is a read: source operand of append, len,
+	// re-slicing, an element of an argument list, an argument of a repository
+	// function (whose own writes are among the collected ones) or of a library
+	// function that only reads
+	seen := map[ssa.Value]bool{}
+	var readOnly func(v ssa.Value) bool
+	readOnly = func(v ssa.Value) bool {
+		if seen[v] || v.Referrers() == nil {
+			return true
+		}
+		seen[v] = true
+		for _, ref := range *v.Referrers() {
+			switch x := ref.(type) {
+			case *ssa.DebugRef:
+			case *ssa.Slice:
+				if !readOnly(x) {
+					return false
+				}
+			case *ssa.Phi:
+				if !readOnly(x) {
+					return false
+				}
+			case *ssa.Store:
+				// the slice value placed into a local array (an argument list)
+				ia, ok := x.Addr.(*ssa.IndexAddr)
+				if !ok || x.Val != v {
+					return false
+				}
+				if _, ok := ia.X.(*ssa.Alloc); !ok {
+					return false
+				}
+			case *ssa.Call:
+				if isBuiltin(x, "len") || isBuiltin(x, "cap") {
+					continue
+				}
+				if isBuiltin(x, "append") {
+					if len(x.Call.Args) == 2 && x.Call.Args[1] == v && x.Call.Args[0] != v {
+						continue
+					}
+					return false
+				}
+				if isBuiltin(x, "copy") {
+					if len(x.Call.Args) == 2 && x.Call.Args[1] == v && x.Call.Args[0] != v {
+						continue
+					}
+					return false
+				}
+				cal := x.Call.StaticCallee()
+				if cal == nil {
+					return false
+				}
+				if e.P.InRepo(cal) {
+					continue
+				}
+				switch cal.String() {
+				case "bytes.Equal", "bytes.Compare", "encoding/hex.EncodeToString", "crypto/sha256.Sum256", "crypto/sha512.Sum384":
+					continue
+				}
+				return false
+			default:
+				return false
+			}
+		}
+		return true
+	}
+	return readOnly(mk)
 }
 
 func isArrayObj(t *Term) bool {
